@@ -1,8 +1,10 @@
 //! C12: KES keys sign verifiably for exactly their current period.
 //! Runs the real Sum{1..7}Kes and Sum{1..7}CompactKes through whole lives
-//! (keygen, 2^d - 1 updates, one update too many). At every period: the oracle
+//! (keygen, 2^d - 1 updates, then three update() calls too many — each must be refused AND
+//! leave period, key bytes, to_pk and signing ability untouched). At every state: the oracle
 //! (period, stable public key, signature verifies at t and at no other in-range
-//! period, byte round trip, update fails exactly at the end) and, for the selected
+//! period, byte round trip, update fails exactly at the end, an erroring update and the
+//! read-only calls change nothing) and, for the selected
 //! states, a CASE with the classification of everything the real code produced
 //! (see coq/theories/C12/Run.v).
 #[path = "kes_shared/mod.rs"]
@@ -60,6 +62,15 @@ fn history<K: KesOps>(ctx: &mut Ctx, k: i64, master: &B32, emit_mode: u32) {
         Err(e) => { fail::<K>("keygen", k, master, 0, e); return; }
     };
     let pk = live.pk.clone();
+    // error path of KesSk::from_bytes: a buffer of the wrong size is rejected and left untouched
+    for wrong in [K::SIZE + 3, K::SIZE + 5, K::SIZE] {
+        let mut wb: Vec<u8> = live.buf.iter().cycle().take(wrong).cloned().collect();
+        let keep = wb.clone();
+        let r = K::period(&mut wb);
+        if !matches!(r, Out::Err(_)) || wb != keep {
+            fail::<K>("from-bytes-wrong-size", k, master, 0, format!("from_bytes on {} bytes (expected {}): {} ; buffer changed: {}", wrong, K::SIZE + 4, out_string(&r, |p| format!("Ok, period {}", p)), wb != keep));
+        }
+    }
     let mut emit_at: Vec<u32> = vec![];
     if emit_mode == 2 {
         let h = total / 2;
@@ -67,8 +78,13 @@ fn history<K: KesOps>(ctx: &mut Ctx, k: i64, master: &B32, emit_mode: u32) {
         for _ in 0..3 { emit_at.push(ctx.rng.below(total as u64) as u32); }
     }
     let mut prev_sig: Option<Vec<u8>> = None;
-    for t in 0..total {
+    // every period, then three more update() calls at the last period (each must be refused
+    // and must leave the key exactly as it was)
+    let mut steps: Vec<(u32, u32)> = (0..total).map(|t| (t, 0)).collect();
+    for r in 1..=3 { steps.push((total - 1, r)); }
+    for (t, refused) in steps {
         ctx.states += 1;
+        let before = live.buf.clone();
         // ---- period ----
         let per = K::period(&mut live.buf);
         match &per { Out::Ok(p) if *p == t => {}, _ => fail::<K>("period", k, master, t, format!("get_period = {}", out_string(&per, |p| p.to_string()))) }
@@ -85,6 +101,9 @@ fn history<K: KesOps>(ctx: &mut Ctx, k: i64, master: &B32, emit_mode: u32) {
         };
         if !rt || sig.len() != K::SIG_SIZE {
             fail::<K>("sig-roundtrip", k, master, t, format!("sig={} from_bytes(to_bytes) differs or wrong size {}", hex(&sig), sig.len()));
+        }
+        if live.buf != before {
+            fail::<K>("readonly-op-changes-key", k, master, t, format!("get_period/to_pk/sign changed the key buffer from {} to {}", hex(&before), hex(&live.buf)));
         }
         // ---- verification at the in-range periods ----
         let mut periods: Vec<u32> = if d <= 4 { (0..total).collect() } else {
@@ -158,34 +177,36 @@ fn history<K: KesOps>(ctx: &mut Ctx, k: i64, master: &B32, emit_mode: u32) {
         match &upd {
             Out::Ok(true) if t + 1 < total => {}
             Out::Ok(false) if t + 1 == total => {}
-            Out::Ok(true) => fail::<K>("update-past-end", k, master, t, "update succeeded at the last period".into()),
+            Out::Ok(true) => fail::<K>("update-past-end", k, master, t, format!("update succeeded at the last period (after {} refused calls)", refused)),
             Out::Ok(false) => fail::<K>("update-early-fail", k, master, t, format!("update refused at period {} of {}", t, total)),
             o => fail::<K>("update-error", k, master, t, out_string(o, |_| String::new())),
+        }
+        // an update that returns an error must leave the whole key (buffer and period counter) untouched
+        if !upd_ok && next != live.buf {
+            let first = next.iter().zip(live.buf.iter()).position(|(a, b)| a != b).unwrap_or(0);
+            fail::<K>("update-error-changes-state", k, master, t,
+                format!("refused update call number {} at the last period changed the key: first difference at byte {} of {} (period bytes start at {}); before {} after {}",
+                    refused + 1, first, next.len(), K::SIZE, hex(&live.buf), hex(&next)));
         }
         if selected && classify {
             let vx: Vec<String> = vexps.iter().map(|(p, pkb, mm, si, v)| format!("(V {} {} {} {} {})", p, cl.cls(pkb), mm, si, coq_bool(*v))).collect();
             let sg: Vec<String> = sigs.iter().map(|s| cl.slots(s)).collect();
-            let term = format!("(Case {} {} {} {} {} {} {} {} {} {} {} {} {} {} [{}] [{}])",
-                K::COMPACT as u32, d, coq_z(k), t, m,
+            let term = format!("(Case {} {} {} {} {} {} {} {} {} {} {} {} {} {} {} [{}] [{}])",
+                K::COMPACT as u32, d, coq_z(k), t, refused, m,
                 cl.cls(&live.seed_after), cl.cls(&pk), cl.slots(&live.buf[..K::SIZE]),
                 match &per { Out::Ok(p) => p.to_string(), _ => "(-1)".to_string() }, match &topk { Out::Ok(p) => cl.cls(p), _ => "KOther".to_string() }, cl.slots(&sig),
                 coq_bool(rt), coq_bool(upd_ok), coq_list(&gv, |b| coq_bool(*b).to_string()), sg.join(";"), vx.join(";"));
             let tag = format!("{}-d{}-{}", vname::<K>(), d,
-                if t == 0 { "fresh" } else if t + 1 == total { "last" } else if t == total / 2 { "half" } else if t + 1 == total / 2 { "before-half" } else { "mid" });
+                if refused > 0 { "refused-update" } else if t == 0 { "fresh" } else if t + 1 == total { "last" } else if t == total / 2 { "half" } else if t + 1 == total / 2 { "before-half" } else { "mid" });
             emit_case(&tag, &term);
             ctx.cases += 1;
             if ctx.samples < 3 { ctx.samples += 1; emit_sample(&format!("{} seed={} t={} msg={} sig={}", K::NAME, hex(master), t, hex(&mb), hex(&sig))); }
         }
         prev_sig = Some(sig);
-        if !upd_ok {
-            // a refused update must keep refusing
-            let mut again = live.buf.clone();
-            if t + 1 == total && !matches!(K::update(&mut again), Out::Ok(false)) {
-                fail::<K>("update-past-end", k, master, t, "second update at the last period did not fail".into());
-            }
-            break;
-        }
+        // keep whatever the call left in the buffer, also when it was refused: the following
+        // steps observe (period, to_pk, signature, slots) the key the caller is really left with
         live.buf = next;
+        if upd_ok != (t + 1 < total) { break; }
     }
 }
 
